@@ -23,6 +23,8 @@ pub struct Plan {
     pub tropical_routing: bool,
     /// budget: at most about this many executions per case, divided by loops^2 (sectors are strided to fit)
     pub points_per_case: usize,
+    /// also explore every elementary unimodular change of the base cycle basis (an evenly spaced subset for >= 3 loops)
+    pub basis_orbit: bool,
 }
 
 pub fn fam_for(tier: Tier, prop: &str) -> Vec<CaseSpec> {
@@ -46,6 +48,22 @@ pub fn fam_for(tier: Tier, prop: &str) -> Vec<CaseSpec> {
             all_masses_up_to_e: 0,
         });
         v.extend(extra);
+        // box (4-cycle) with exactly one massive propagator: the mass can be separated from the momentum-carrying component
+        let boxg: Vec<(u8, u8)> = vec![(0, 1), (1, 2), (2, 3), (3, 0)];
+        for m in 0..4usize {
+            for ext in [vec![0u8, 1], vec![0, 2], vec![0, 1, 2]] {
+                for d in [3usize, 4] {
+                    for w in [1.0, 0.75, 1.5, d as f64] {
+                        let massive: Vec<bool> = (0..4).map(|e| e == m).collect();
+                        let g = crate::scope::mk(&boxg, &massive, &vec![w; 4], &ext, d);
+                        if admissible(&g) {
+                            v.push(CaseSpec { g, mom_variant: m % 2, mass_variant: d % 2, label: "named".into() });
+                            break;
+                        }
+                    }
+                }
+            }
+        }
         for (topo, exts) in [(crate::scope::kite(), vec![vec![0u8, 3], vec![0, 1, 3]]), (crate::scope::banana(3), vec![vec![0u8, 1]])] {
             let ne = topo.len();
             for massive in [vec![false; ne], (0..ne).map(|e| e == 1).collect::<Vec<bool>>()] {
@@ -95,6 +113,25 @@ pub fn explore(plan: &Plan, f: &PointFn) -> Acc {
                 return;
             }
         };
+        let mut orbit_routed: Vec<Routed> = vec![];
+        if plan.basis_orbit && case.nl >= 2 {
+            let bk = case.base_kin();
+            let mut ks: Vec<oracle::kin::Kin> = oracle::kin::elementary_unimodular(case.nl).iter().map(|m| bk.change_basis(m)).collect();
+            let keep = match case.nl {
+                2 => usize::MAX,
+                3 => 8,
+                _ => 4,
+            };
+            if ks.len() > keep {
+                let step = ks.len() as f64 / keep as f64;
+                ks = (0..keep).map(|i| ks[(i as f64 * step) as usize].clone()).collect();
+            }
+            for k in ks {
+                if let Ok(r) = route(&case, &k) {
+                    orbit_routed.push(r);
+                }
+            }
+        }
         let ne = case.g.ne();
         let sectors = all_sectors(ne);
         let t_case = std::time::Instant::now();
@@ -102,7 +139,7 @@ pub fn explore(plan: &Plan, f: &PointFn) -> Acc {
         let per_sector = match sector_full_product(&case, &sectors[0], &plan.roles, plan.full_product_cap) {
             Some(p) if plan.full_product_cap > 0 => p.len(),
             _ => sector_points(&case, &sectors[0], plan.k, &plan.roles).len(),
-        } * if plan.tropical_routing { 2 } else { 1 };
+        } * (if plan.tropical_routing { 2 } else { 1 } + orbit_routed.len());
         let budget = (plan.points_per_case / (case.nl * case.nl).max(1)).max(per_sector);
         let fit = (budget / per_sector.max(1)).max(1);
         let mut stride = (sectors.len() + fit - 1) / fit;
@@ -135,9 +172,10 @@ pub fn explore(plan: &Plan, f: &PointFn) -> Acc {
                 _ => sector_points(&case, order, plan.k, &plan.roles),
             };
             for (x, ndev) in &pts {
-                for r in std::iter::once(&base).chain(routings.iter()) {
+                for r in std::iter::once(&base).chain(routings.iter()).chain(orbit_routed.iter()) {
                     let po = observe_point(&case, r, x, &plan.settings);
                     acc.inc("executions");
+                    acc.add("answers_consumed", x.len() as u64);
                     acc.hist("outcome", &po.out.kind());
                     f(&case, r, &po, *ndev, acc);
                 }
@@ -159,6 +197,16 @@ fn pkey(prop: &str, clause: &str, case: &Case, x: &[f64]) -> String {
 
 fn viol(acc: &mut Acc, prop: &str, clause: &str, case: &Case, r: &Routed, po: &PointObs, st: &Settings, what: String) {
     acc.violate(pkey(prop, clause, case, &po.x), clause, what, point_case(case, &r.kin, &po.x, st, json!({"prop": prop})));
+}
+
+/// G4 on the implementation's own intermediates before the rescaling: parameters and tropical values within
+/// [1e-280, 1e280] (below that the products that form u_trop are subnormal and carry no accuracy)
+fn g4_unrescaled(log: &LogRec) -> bool {
+    let ok = |v: f64| v.is_finite() && v >= 1e-280 && v <= 1e280;
+    match (&log.x_unrescaled, log.u_trop_nr, log.v_trop_nr) {
+        (Some(x), Some(u), Some(v)) => x.iter().all(|a| ok(*a)) && ok(u) && ok(v),
+        _ => false,
+    }
 }
 
 fn finite_pos(v: &[f64]) -> bool {
@@ -266,7 +314,7 @@ pub fn c07_point(case: &Case, r: &Routed, po: &PointObs, _nd: usize, acc: &mut A
             viol(acc, "C07", "common-rescaling", case, r, po, &st, format!("rescaled/unrescaled ratios differ: {ratios:?}"));
         }
         // (c) normalisation in the rescaled gauge
-        if case.generic {
+        if case.generic && g4_unrescaled(&po.log) {
             let xq: Vec<Q> = x.iter().map(|v| qf(*v)).collect();
             let (ut, ft) = trop_exact(case, &xq);
             if !ft.is_zero() && !ut.is_zero() {
@@ -330,6 +378,10 @@ pub fn c11_point(case: &Case, r: &Routed, po: &PointObs, _nd: usize, acc: &mut A
     // gauge-free oracle formula at the logged parameters, rescaled and unrescaled
     if !case.generic {
         acc.inc("excluded_G3");
+        return;
+    }
+    if !g4_unrescaled(&po.log) {
+        acc.inc("excluded_G4_underflow_before_rescaling");
         return;
     }
     for (name, xs) in [("rescaled", &po.log.x), ("unrescaled", &po.log.x_unrescaled)] {
@@ -739,6 +791,10 @@ pub fn c02_point(case: &Case, r: &Routed, po: &PointObs, _nd: usize, acc: &mut A
         }
     }
     // (b),(c) the gauge-free consequence, at the rescaled parameters
+    if !g4_unrescaled(&po.log) {
+        acc.inc("excluded_G4_underflow_before_rescaling");
+        return;
+    }
     let xs = match &po.log.x {
         Some(x) => x,
         None => return,
@@ -787,13 +843,14 @@ pub fn run_c02(ctx: &Ctx) -> i32 {
     let plan = Plan {
         cases: fam_for(tier, "C02"),
         k: tier.pick(2, 3),
-        roles: Roles { u: true, xi: true, p: false, ab: false, xi_moderate: false },
+        roles: Roles { u: true, xi: true, p: false, ab: false, xi_moderate: false, xi_ladder: false },
         settings: Settings::FULL,
         full_product_cap: tier.pick(800, 6000),
         sector_all_up_to: 4,
         sector_stride: tier.pick(7, 3),
         tropical_routing: true,
         points_per_case: tier.pick(3000, 40000),
+        basis_orbit: false,
     };
     let mut acc = explore(&plan, &c02_point);
     sample_from_plan(&plan, &mut acc);
@@ -801,7 +858,7 @@ pub fn run_c02(ctx: &Ctx) -> i32 {
         level: "model_checking",
         rule: format!("stateless exploration of the sampler machine into the corners of the hypercube: every sector, every answer sequence with at most {} deviations over the full xi alphabet (2^-1074 ... 1-2^-53) and interval-end selection answers (full product when small), in the base routing and in the sector's tropical routing; at each execution the implementation's logged tropical values are compared with the exact Symanzik polynomials and the returned weight with the graph-only interval; non-trivial = judged executions of configurations with N_T >= 2 and >= 2 distinct F coefficients", plan.k),
         states: acc.get("executions"),
-        transitions: acc.get("executions") * 3,
+        transitions: acc.get("answers_consumed"),
         traces: acc.get("points_judged") + acc.get("polynomial_bounds_judged"),
         evaluations: acc.get("executions"),
         distinct_nontrivial: acc.get("points_judged_nontrivial") + acc.get("polynomial_bounds_judged_nontrivial"),
@@ -824,13 +881,14 @@ pub fn c16b(ctx: &Ctx) -> Acc {
         let plan = Plan {
             cases: cases.clone(),
             k: tier.pick(2, 3),
-            roles: Roles { u: false, xi: true, p: false, ab: false, xi_moderate: false },
+            roles: Roles { u: false, xi: true, p: false, ab: false, xi_moderate: false, xi_ladder: false },
             settings: st,
             full_product_cap: tier.pick(600, 5000),
             sector_all_up_to: 3,
             sector_stride: tier.pick(11, 3),
             tropical_routing: false,
             points_per_case: tier.pick(600, 10000),
+            basis_orbit: false,
         };
         let f = move |case: &Case, r: &Routed, po: &PointObs, _nd: usize, acc: &mut Acc| {
             acc.inc("evaluations");
@@ -866,13 +924,14 @@ pub fn c12_binding(ctx: &Ctx) -> Acc {
     let plan = Plan {
         cases,
         k: 1,
-        roles: Roles { u: false, xi: false, p: true, ab: false, xi_moderate: true },
+        roles: Roles { u: false, xi: false, p: true, ab: false, xi_moderate: true, xi_ladder: false },
         settings: st,
         full_product_cap: 0,
         sector_all_up_to: 0,
         sector_stride: 100000,
         tropical_routing: false,
         points_per_case: 100,
+        basis_orbit: false,
     };
     let f = |case: &Case, r: &Routed, po: &PointObs, _nd: usize, acc: &mut Acc| {
         let rr = match &po.rr {
@@ -927,6 +986,12 @@ pub fn run_simple(ctx: &Ctx) -> i32 {
     let tier = ctx.tier;
     let prop = ctx.prop.as_str();
     let cases = match prop {
+        "C11" => {
+            let mut c = fam_for(tier, prop);
+            // integer propagator powers >= 3 and every (D, L) cell up to 3 loops
+            c.extend(dl_grid_cases().into_iter().filter(|c| c.g.loop_number(c.g.full()) <= 3));
+            c
+        }
         "C13" | "C10" => {
             let mut c = dl_grid_cases();
             c.extend(fam_for(tier, prop));
@@ -936,25 +1001,25 @@ pub fn run_simple(ctx: &Ctx) -> i32 {
     };
     let (roles, settings, k, cap): (Roles, Settings, usize, usize) = match prop {
         "C07" | "C11" => (
-            Roles { u: true, xi: true, p: false, ab: false, xi_moderate: false },
+            Roles { u: true, xi: true, p: false, ab: false, xi_moderate: false, xi_ladder: false },
             Settings::FULL,
             tier.pick(1, 2),
             tier.pick(700, 5000),
         ),
         "C08" | "C09" => (
-            Roles { u: true, xi: true, p: false, ab: false, xi_moderate: true },
+            Roles { u: true, xi: true, p: false, ab: false, xi_moderate: true, xi_ladder: true },
             Settings::FULL,
             tier.pick(1, 2),
             tier.pick(300, 2000),
         ),
         "C10" => (
-            Roles { u: false, xi: true, p: true, ab: true, xi_moderate: true },
+            Roles { u: false, xi: true, p: true, ab: true, xi_moderate: true, xi_ladder: false },
             Settings::FULL,
             tier.pick(1, 2),
             0,
         ),
         "C13" => (
-            Roles { u: false, xi: false, p: false, ab: true, xi_moderate: true },
+            Roles { u: false, xi: false, p: false, ab: true, xi_moderate: true, xi_ladder: false },
             Settings::META,
             2,
             tier.pick(3000, 60000),
@@ -976,7 +1041,8 @@ pub fn run_simple(ctx: &Ctx) -> i32 {
             _ => tier.pick(7, 3),
         },
         tropical_routing: matches!(prop, "C09" | "C10" | "C11"),
-        points_per_case: tier.pick(1500, 20000),
+        points_per_case: tier.pick(1500, 20000) * if prop == "C10" { 3 } else { 1 },
+        basis_orbit: prop == "C10",
     };
     let f: &PointFn = match prop {
         "C07" => &c07_point,
@@ -1010,10 +1076,10 @@ pub fn run_simple(ctx: &Ctx) -> i32 {
     let fin = Finish {
         level: "model_checking",
         rule: format!("stateless exploration of the sampler machine: for every admissible configuration of the family, every sector (removal order) is entered with midpoint selection answers; every answer sequence with at most {k} deviations from the defaults over the roles {:?} (full alphabet product when small) is executed on the real code and compared with the reference machine; states = (configuration, sector, answer-prefix) nodes = executions; transitions = answers consumed; non-trivial = executions judged by at least the main clause", (plan.roles.u, plan.roles.xi, plan.roles.p, plan.roles.ab)),
-        states: acc.get("executions"),
-        transitions: acc.get("executions") * 3,
+        states: acc.get("executions") + acc.get("orbit_executions"),
+        transitions: acc.get("answers_consumed") + acc.get("orbit_answers_consumed"),
         traces: acc.get("points_judged"),
-        evaluations: acc.get("executions"),
+        evaluations: acc.get("executions") + acc.get("orbit_executions"),
         distinct_nontrivial: acc.get("points_judged"),
         exhaustive: true,
         bounds: json!({"deviation_bound": k, "full_product_cap": cap, "cases": plan.cases.len(), "sector_stride_above_E4": plan.sector_stride, "tau0": "2^-52*2^14"}),
@@ -1123,7 +1189,7 @@ pub fn orbit_pass(ctx: &Ctx) -> Acc {
         acc.add("orbit_routings", routed.len() as u64);
         let ne = case.g.ne();
         let sectors = all_sectors(ne);
-        let roles = Roles { u: false, xi: true, p: false, ab: false, xi_moderate: true };
+        let roles = Roles { u: false, xi: true, p: false, ab: false, xi_moderate: true, xi_ladder: true };
         let max_sectors = (tier.pick(24, 120) / (case.nl * case.nl).max(1)).max(2);
         let sstride = (sectors.len() + max_sectors - 1) / max_sectors;
         for (si, order) in sectors.iter().enumerate() {
@@ -1139,6 +1205,7 @@ pub fn orbit_pass(ctx: &Ctx) -> Acc {
                 for (name, r) in &routed {
                     let po = observe_point(&case, r, &x, &st);
                     acc.inc("orbit_executions");
+                    acc.add("orbit_answers_consumed", x.len() as u64);
                     let s = match &po.out {
                         Outcome::Ok(s) => s,
                         _ => continue,
